@@ -54,6 +54,60 @@ Section Push.
     | OProject f => (s, keep (map f c), true)
     end.
 
+  (** *** input chunks that carry a selection vector (what the pull operators hand over through
+      OperatorSource): [phys] = the physical rows, [sel] = the selected physical indices (ascending,
+      in range).  FilterPushOperator and DistinctPushOperator build their output selection with
+      [SelectionVector::from_predicate(chunk.len(), ..)], LimitPushOperator with
+      [SelectionVector::new_all(remaining)]: the positions 0..len-1, where len is the number of
+      SELECTED rows, are taken for PHYSICAL row indices and then intersected with the input
+      selection by [DataChunk::filter].  Sort and project iterate [selected_indices()]. *)
+  Definition sel_rows (phys : list R) (sel : list nat) : list R :=
+    flat_map (fun i => match nth_error phys i with Some r => [r] | None => [] end) sel.
+  Definition memb (i : nat) (l : list nat) : bool := existsb (Nat.eqb i) l.
+  (** the rows at the physical positions i < n (ascending) with i selected and [q i row] *)
+  Definition pick (phys : list R) (sel : list nat) (n : nat) (q : nat -> R -> bool) : list R :=
+    flat_map (fun i => match nth_error phys i with
+                       | Some r => if memb i sel && q i r then [r] else []
+                       | None => []
+                       end) (seq 0 n).
+  (** DISTINCT walks the selected rows in order and collects the physical indices of the new keys *)
+  Fixpoint fresh_idx (key : R -> K) (seen : list K) (phys : list R) (sel : list nat) : list K * list nat :=
+    match sel with
+    | [] => (seen, [])
+    | i :: t =>
+        match nth_error phys i with
+        | None => fresh_idx key seen phys t
+        | Some r => if existsb (keq (key r)) seen then fresh_idx key seen phys t
+                    else let '(s', o) := fresh_idx key (key r :: seen) phys t in (s', i :: o)
+        end
+    end.
+
+  Definition push_sel (k : opk) (s : opst) (phys : list R) (sel : list nat) : opst * list (list R) * bool :=
+    let n := length sel in
+    match k with
+    | OFilter p => (s, keep (pick phys sel n (fun _ r => p r)), true)
+    | OLimit lim =>
+        if lim <=? s_passed s then (s, [], false)
+        else let remaining := lim - s_passed s in
+             if n <=? remaining
+             then ({| s_passed := s_passed s + n; s_seen := s_seen s; s_buf := s_buf s |},
+                   keep (sel_rows phys sel), s_passed s + n <? lim)
+             else ({| s_passed := s_passed s + remaining; s_seen := s_seen s; s_buf := s_buf s |},
+                   keep (pick phys sel remaining (fun _ _ => true)), false)
+    | ODistinct key =>
+        let '(seen', idx) := fresh_idx key (s_seen s) phys sel in
+        ({| s_passed := s_passed s; s_seen := seen'; s_buf := s_buf s |},
+         keep (pick phys sel n (fun i _ => memb i idx)), true)
+    | OSort _ => ({| s_passed := s_passed s; s_seen := s_seen s; s_buf := s_buf s ++ sel_rows phys sel |}, [], true)
+    | OProject f => (s, keep (map f (sel_rows phys sel)), true)
+    end.
+
+  (** finding class C17-K9: an input chunk whose selection is not the prefix 0..len-1 *)
+  Definition sel_is_prefix (sel : list nat) : bool :=
+    (fix go (i : nat) (l : list nat) : bool :=
+       match l with [] => true | j :: t => (j =? i) && go (S i) t end) 0 sel.
+  Definition k_sel_not_prefix (sels : list (list nat)) : bool := existsb (fun sel => negb (sel_is_prefix sel)) sels.
+
   Definition finish (k : opk) (s : opst) : list (list R) :=
     match k with
     | OSort cmp => keep (isort cmp (s_buf s))
